@@ -246,7 +246,10 @@ func c05System(r *ev.Rec) {
 	for _, k := range sizes {
 		comps = append(comps, multisets(len(c05NodeStates), k)...)
 	}
-	events := []string{"none", "healthy-node-goes-not-ready-during-validation", "healthy-node-deleted-during-validation"}
+	// queue-executes-...: after every round the orchestration queue carries out the delete-only commands (the NodeClaims
+	// get their deletionTimestamp in the API) while the NodeClaim informer LAGS: the cluster cache has not seen the
+	// deletions when the next round runs, so only the queue's in-memory marks say that those nodes are going away
+	events := []string{"none", "healthy-node-goes-not-ready-during-validation", "healthy-node-deleted-during-validation", "queue-executes-delete-commands-while-the-nodeclaim-informer-lags"}
 	r.Extra["system_pool_compositions"] = len(comps)
 	enum.Run(r, enum.Size(len(comps), len(c05SysBudgets), len(events)), func(idx int64, l *ev.Local) {
 		d := enum.Odo(idx, len(comps), len(c05SysBudgets), len(events))
@@ -378,7 +381,11 @@ func c05System(r *ev.Rec) {
 							ready = true
 						}
 					}
-					if (!ready || n.MarkedForDeletion()) && !term {
+					apiDeleting := false
+					if nc := w.GetNodeClaim(n.NodeClaim.Name); nc != nil && nc.DeletionTimestamp != nil {
+						apiDeleting = true // being deleted in the API, whether or not the cache has seen it yet
+					}
+					if (!ready || n.MarkedForDeletion() || apiDeleting) && !term {
 						disrupting++
 					}
 				}
@@ -395,6 +402,16 @@ func c05System(r *ev.Rec) {
 				}
 			}
 			_ = view
+			if event == "queue-executes-delete-commands-while-the-nodeclaim-informer-lags" {
+				for _, c := range cmds {
+					if len(c.Replacements) > 0 || len(c.Candidates) == 0 {
+						continue
+					}
+					if obj := w.GetNodeClaim(c.Candidates[0].NodeClaim.Name); obj != nil {
+						_, _ = env.Queue.Reconcile(w.Ctx, obj)
+					}
+				}
+			}
 			if idx%4099 == 17 && round == 0 {
 				l.Sample(map[string]any{"case": desc, "round0_commands": cmdStrings(cmds)})
 			}
@@ -421,7 +438,7 @@ func budgetClass(b c05Budgets) string {
 func init() {
 	register("C05", "exploration", func(r *ev.Rec) {
 		r.Rule = "arithmetic layer: every budget {nodes in 0,1,2,10%,33%,50%,100%} x {reasons unset, [], [Empty], [Drifted], [Underutilized], [Empty,Drifted]} x {8 schedule/duration variants incl. unparsable and duration-only}, alone and paired with a second budget, x instants {hit-1s, hit, hit+1s, hit+d-1s, hit+d, hit+d+1s} x N in 0..6/12 x 3 reasons through MustGetAllowedDisruptions against an independent oracle (own cron matcher by minute scanning); " +
-			"system layer: every pool composition (multisets of 2..4/5 nodes over {empty, drifted, with pod, not-ready, deleting, marked, uninitialized, instance-terminating}) x 11 budget lists x {no event, a healthy node goes NotReady / is deleted during the 15s validation delay} driven through the real disruption controller with all methods for 2/3 consecutive rounds with commands left in the queue. Oracle per round and reason: newly selected candidates + nodes not ready or being deleted <= allowed by the oracle (flagged only if exceeded under both denominators). non-trivial = distinct budget list / distinct (system case, round, reason) with a command"
+			"system layer: every pool composition (multisets of 2..4/5 nodes over {empty, drifted, with pod, not-ready, deleting, marked, uninitialized, instance-terminating}) x 11 budget lists x {no event, a healthy node goes NotReady / is deleted during the 15s validation delay, the orchestration queue executes the delete-only commands between the rounds while the NodeClaim informer lags} driven through the real disruption controller with all methods for 3 consecutive rounds (otherwise with commands left in the queue). Oracle per round and reason: newly selected candidates + nodes not ready or being deleted <= allowed by the oracle (flagged only if exceeded under both denominators). non-trivial = distinct budget list / distinct (system case, round, reason) with a command"
 		r.Assumptions = []string{"cron schedules restricted to the subset the oracle's matcher implements (*, */n, numbers, lists, @daily, @hourly)"}
 		c05Arithmetic(r)
 		c05System(r)
